@@ -285,6 +285,25 @@ def cases(tier, rng):
         for v in (lookups if via is None else rng.sample(lookups, 6)):
             for mt in (-1, 0, 1):
                 yield mcase(v, vec, mt, orient, classify(vec), via=via, fl=(i % 7 == 0))
+    # --- 2b. sorted NEGATIVE numbers behind leading blank cells (a blank compares as 0 wherever a search looks at it:
+    #          above every negative number), looked up by negative / zero / positive values, both approximate modes
+    negs = [-8, -6, -4, -2, -1.5, -1]
+    for lead in (1, 2, 3):
+        for trail in (0, 1, 2):
+            for m in (2, 3, 4, 6):
+                core_ = negs[:m] if m < 6 else negs
+                for mixed in (False, True):
+                    body = core_ + ([0, 3] if mixed else [])
+                    for mt in (1, -1):
+                        vec = [None] * lead + (body if mt == 1 else body[::-1]) + [None] * trail
+                        for v in (-9, -8, -7, -5, -4, -3, -1.75, -1, -0.5, 0, 1, 5):
+                            yield mcase(v, vec, mt, 'col' if (lead + m) & 1 else 'row', classify(vec))
+                    if not mixed and lead < 3:
+                        table = [[x, f't{i}'] for i, x in enumerate([None] * lead + body + [None] * trail)]
+                        for v in (-7, -4, -3, -1):
+                            yield tcase('vlookup', v, table, 2, True, classify([r[0] for r in table]))
+                            yield tcase('hlookup', v, transpose(table), 2, True, classify([r[0] for r in table]))
+                            yield lcase(v, table, None, classify([r[0] for r in table]))
     # --- 3. tables up to 6x4: VLOOKUP, HLOOKUP on the transpose, every result index, both range_lookup values
     tl = [-1, 0, 1, 1.5, 2, 3, 'a', 'B', 'ab', 'abc', True, False, None, 'a*', 2.5]
     for i in range(2000 if thorough else 110):
